@@ -17,6 +17,7 @@
 package frame
 
 import (
+	"bytes"
 	"io"
 
 	"github.com/go-netty/go-netty"
@@ -39,7 +40,15 @@ func (*fixedLengthCodec) CodecName() string {
 }
 
 func (f *fixedLengthCodec) HandleRead(ctx netty.InboundContext, message netty.Message) {
-	ctx.HandleRead(io.LimitReader(utils.MustToReader(message), int64(f.length)))
+	reader := utils.MustToReader(message)
+
+	// read the first byte eagerly: at the end of the stream this raises
+	// instead of delivering an endless sequence of empty frames.
+	first := make([]byte, 1)
+	_, err := io.ReadFull(reader, first)
+	utils.Assert(err)
+
+	ctx.HandleRead(io.MultiReader(bytes.NewReader(first), utils.ExactReader(reader, int64(f.length-1))))
 }
 
 func (f *fixedLengthCodec) HandleWrite(ctx netty.OutboundContext, message netty.Message) {
